@@ -24,7 +24,9 @@ ASSUMPTIONS = ["URL references and chardet/ad-hoc autodetection are outside the 
 HEAD_WORDS = ["Bohrloch", "Überdeckung", "Скважина", "Ölfeld", "température", "Ωmega", "ÉCOLE", "plain", "naïve café"]
 # characters at which str.splitlines() breaks but which are NOT line ends for a file, a StringIO or lasio's line scanner (interior
 # position: str.strip() would remove them at the ends of a field)
-EXOTIC_WORDS = ["left\x85right", "a\u2028b", "p\u2029q", "f\x0cg", "v\x0bw", "s\x1ct", "r\x1du", "q\x1ev"]
+# decomposed accents and compatibility characters: preserved as they are (no Unicode normalisation)
+COMPAT_WORDS = ["cafe\u0301", "\u2126hm", "\u212bngstrom", "270\u212a", "A\u030angstro\u0308m"]
+EXOTIC_WORDS = COMPAT_WORDS + ["left\x85right", "a\u2028b", "p\u2029q", "f\x0cg", "v\x0bw", "s\x1ct", "r\x1du", "q\x1ev"]
 
 
 def canon(las):
@@ -86,7 +88,14 @@ def channels(run, tmp):
     for n in range(run.budget(40, 600)):
         codec, arg = encs[n % len(encs)]
         text = gen_text(run.rng, latin1=codec in ("latin-1", "cp1252"), codec=codec)
-        ref = canon(lasio.read(io.StringIO(text)))
+        ref_las = lasio.read(io.StringIO(text))
+        ref = canon(ref_las)
+        # every character of the header text is preserved: the COMP value is the word that was written, code point by code point
+        import re as _re
+        m_ = _re.search(r"^COMP\. (.*) : company$", text, flags=_re.M)
+        if m_ and str(ref_las.well["COMP"].value) != m_.group(1).strip():
+            run.fail("header-text-preserved", {"channel": "StringIO", "codec": codec, "newline": repr("\n"), "text": text},
+                     {"expected": [hex(ord(ch)) for ch in m_.group(1).strip()], "observed": [hex(ord(ch)) for ch in str(ref_las.well["COMP"].value)]})
         for nl in ("\n", "\r\n", "\r", "mixed"):
             path = os.path.join(tmp, "c%d.las" % n)
             if nl == "mixed":       # LF and CRLF line ends in one file (concatenated exports)
@@ -147,6 +156,39 @@ def channels(run, tmp):
                     continue
                 if got != ref:
                     run.fail("channel-independent", case, {"expected": ref, "observed": got})
+
+
+def rewritten_paths(run, tmp):
+    """the same path re-written between two reads (another text, another BOM status, another codec): every read is a function of
+    what the file holds NOW and of the options"""
+    import lasio
+    path = os.path.join(tmp, "rewritten.las")
+    variants = [("utf-8-sig", {}), ("utf-8", {}), ("utf-8", {"encoding": "utf-8"}), ("utf-16", {"encoding": "utf-16"}), ("latin-1", {"encoding": "latin-1"})]
+    fixed = [[1, 0], [0, 1], [1, 0, 1], [2, 0], [0, 2], [1, 3], [4, 0], [0, 4, 0], [1, 1, 0]]
+    for n in range(run.budget(40, 400)):
+        hist = []
+        plan = fixed[n] if n < len(fixed) else [run.rng.randrange(len(variants)) for _ in range(run.rng.randint(2, 4))]
+        for vi in plan:
+            codec, kw = variants[vi]
+            text = gen_text(run.rng, latin1=(codec == "latin-1"), ascii_only=(codec == "utf-8" and not kw))
+            for _try in range(20):       # a text with non-ASCII header words wherever the codec can carry them
+                if not text.isascii() or (codec == "utf-8" and not kw):
+                    break
+                text = gen_text(run.rng, latin1=(codec == "latin-1"))
+            with open(path, "w", encoding=codec, newline="") as f:
+                f.write(text)
+            hist.append([codec, kw, text])
+            case = {"stream": "rewritten-path", "history": hist}
+            run.case(case, nontrivial=len(hist) > 1, tags=["rewritten-path", "codec=" + codec])
+            try:
+                got = canon(lasio.read(path, **kw))
+            except Exception as e:
+                run.fail("channel-raises", case, {"exc": repr(e)})
+                break
+            ref = canon(lasio.read(io.StringIO(text)))
+            if got != ref:
+                run.fail("read-depends-on-earlier-content-of-the-path", case, {"expected": ref, "observed": got})
+                break
 
 
 def decisions(run, tmp):
@@ -342,14 +384,15 @@ def worker_main(pool_path, seed):
     warnings.simplefilter("ignore")
     import lasio
     texts = json.load(open(pool_path))
-    order = list(range(len(texts)))
+    # every text under every mnemonic_case, the (text, option) pairs in an order of this worker's own
+    order = [(i, mc) for i in range(len(texts)) for mc in ("upper", "lower", "preserve")]
     random.Random(seed).shuffle(order)
     out = {}
-    for i in order:
+    for i, mc in order:
         try:
-            out[i] = fw.h(canon(lasio.read(texts[i], ignore_header_errors=True)))
+            out["%d:%s" % (i, mc)] = fw.h(canon(lasio.read(texts[i], ignore_header_errors=True, mnemonic_case=mc)))
         except Exception as e:
-            out[i] = "raises:" + type(e).__name__
+            out["%d:%s" % (i, mc)] = "raises:" + type(e).__name__
     print(json.dumps(out))
 
 
@@ -372,11 +415,12 @@ def order_independence(run, tmp):
         except Exception:
             raise fw.InfraError("order-independence worker produced no output")
     for i, t in enumerate(texts):
-        vals = {r[str(i)] for r in runs}
-        case = {"stream": "order-independence", "text": t if len(t) < 3000 else t[:3000], "orders": len(runs)}
-        run.case(case, nontrivial=True, tags=["order-independence"])
-        if len(vals) > 1:
-            run.fail("read-depends-on-earlier-reads", case, {"results": sorted(vals)})
+        for mc in ("upper", "lower", "preserve"):
+            vals = {r["%d:%s" % (i, mc)] for r in runs}
+            case = {"stream": "order-independence", "text": t if len(t) < 3000 else t[:3000], "orders": len(runs), "mnemonic_case": mc}
+            run.case(case, nontrivial=True, tags=["order-independence"])
+            if len(vals) > 1:
+                run.fail("read-depends-on-earlier-reads", case, {"results": sorted(vals)})
 
 
 def run(run):
@@ -385,6 +429,7 @@ def run(run):
     tmp = tempfile.mkdtemp(prefix="c10-", dir=base)
     try:
         channels(run, tmp)
+        rewritten_paths(run, tmp)
         decisions(run, tmp)
         histories(run)
         order_independence(run, tmp)
@@ -468,6 +513,20 @@ def replay(run, payload):
             else:
                 got = canon(lasio.read(text.replace("\n", nl)))
             return got == ref
+        finally:
+            shutil.rmtree(tmp, ignore_errors=True)
+    if c.get("stream") == "rewritten-path":
+        base = os.path.join(fw.ROOT, ".scratch")
+        os.makedirs(base, exist_ok=True)
+        tmp = tempfile.mkdtemp(prefix="c10w-", dir=base)
+        try:
+            path = os.path.join(tmp, "rewritten.las")
+            ok = True
+            for codec, kw, text in c["history"]:
+                with open(path, "w", encoding=codec, newline="") as f:
+                    f.write(text)
+                ok = canon(lasio.read(path, **kw)) == canon(lasio.read(io.StringIO(text)))
+            return ok
         finally:
             shutil.rmtree(tmp, ignore_errors=True)
     if "history" in c:
